@@ -118,11 +118,11 @@ func errCode(err error) uint64 {
 		return 11
 	case strings.HasPrefix(s, "serialize message ") && strings.Contains(s, " failed: "):
 		return 12
-	case errors.Is(err, io.ErrUnexpectedEOF):
+	case errors.Is(err, io.ErrUnexpectedEOF), errors.Is(err, io.EOF):
 		return 1
 	case errors.Is(err, cluster.ErrVersionOverflow), errors.Is(err, messages.ErrOverflow):
 		return 2
-	case errors.Is(err, cluster.ErrVectorTooLarge), strings.Contains(s, "exceeds max"):
+	case errors.Is(err, cluster.ErrVectorTooLarge), strings.Contains(s, "exceeds max"), strings.HasPrefix(s, "handshake address too long"):
 		return 3
 	case errors.Is(err, cluster.ErrInvalidNodeAddress), strings.Contains(s, "cannot write nil pointer"):
 		return 4
@@ -455,10 +455,8 @@ func valid(v any, hc bool) bool {
 		return m != nil && hc && !(len(m.Data) > 0 && (m.Data[0] == 0xFE || m.Data[0] == 0xFF))
 	case *vivid.OnLaunch:
 		return m != nil
-	case *vivid.OnKill:
-		return m != nil && isRealRef(m.Killer)
-	case *vivid.OnKilled:
-		return m != nil && isRealRef(m.Ref)
+	case *vivid.OnKill, *vivid.OnKilled:
+		return false // the reader rejects the interface-typed field: see intended()
 	case *vivid.PipeResult:
 		if m == nil || !valid(m.Message, hc) {
 			return false
@@ -521,6 +519,19 @@ func valid(v any, hc bool) bool {
 	}
 	if sender, _, _, inner, isNil, ok := cluster.XVSingletonFwdFields(v); ok {
 		return !isNil && sender == nil && valid(inner, hc)
+	}
+	return false
+}
+
+// intended: OnKill / OnKilled carrying a non-nil *actor.Ref - the values remote Kill / Watch put on the wire.
+// valid_msg excludes them (C12_OnKill_refuted: no value of these types survives); the round-trip monitor
+// still fires on them, because the property quantifies over them.
+func intended(v any) bool {
+	switch m := v.(type) {
+	case *vivid.OnKill:
+		return m != nil && isRealRef(m.Killer)
+	case *vivid.OnKilled:
+		return m != nil && isRealRef(m.Ref)
 	}
 	return false
 }
@@ -730,12 +741,13 @@ func (g *G) ref(i int) vivid.ActorRef {
 		return actor.XVRawRef("", "")
 	}
 	switch g.r.Intn(10) {
-	case 0:
+	case 0, 1:
 		return nil
-	case 1:
-		return (*actor.Ref)(nil)
 	case 2:
 		return actor.XVRawRef(g.str(), g.str())
+	}
+	if g.r.Chance(1, 60) {
+		return (*actor.Ref)(nil)
 	}
 	p := refPool[g.r.Intn(len(refPool))]
 	return actor.XVRawRef(p[0], p[1])
@@ -822,12 +834,6 @@ func (g *G) validMsg(depth int, hc bool) any {
 			v = g.anyMsg(depth)
 		}
 		if valid(v, hc) {
-			if _, ok := v.(*vivid.OnKill); ok {
-				continue
-			}
-			if _, ok := v.(*vivid.OnKilled); ok {
-				continue
-			}
 			return v
 		}
 	}
@@ -1136,6 +1142,7 @@ type H struct {
 	seeds map[string][]seed
 	roundtripHits map[string]int
 	allocHits     int
+	seedsPerKind  int
 }
 
 func (h *H) addSeed(key string, s seed, limit int) {
@@ -1148,7 +1155,7 @@ func (h *H) addSeed(key string, s seed, limit int) {
 func (h *H) protect(name string, in lib.T, f func() lib.T) (out lib.T) {
 	defer func() {
 		if r := recover(); r != nil {
-			h.o.Monitor("panic:"+name, in, fmt.Sprint(r))
+			h.roundtrip("panic:"+name, in, fmt.Sprint(r))
 			out = lib.Err(13)
 		}
 	}()
@@ -1225,9 +1232,17 @@ func decodeIn(op int, hc bool, kind int, bs []byte) lib.T {
 	return lib.L(lib.N(7), lib.Bool(hc), lib.B(bs))
 }
 
+var hitLimit = func() int {
+	if os.Getenv("XV_ALL_HITS") != "" {
+		return 1000
+	}
+	return 3
+}()
+
+// roundtrip records a monitor hit; at most three hits per monitor name are kept in full
 func (h *H) roundtrip(name string, in lib.T, detail string) {
 	h.roundtripHits[name]++
-	if h.roundtripHits[name] <= 3 {
+	if h.roundtripHits[name] <= 3 || (hitLimit > 3 && !strings.HasPrefix(name, "roundtrip")) {
 		h.o.Monitor(name, in, detail)
 	} else {
 		h.o.Stats["monitor:"+name]++
@@ -1244,7 +1259,7 @@ func (h *H) exercise(v any, hc bool) {
 	if k >= 0 {
 		label = kindNames[k]
 	}
-	ok := valid(v, hc)
+	ok := valid(v, hc) || intended(v)
 	// --- WriteMessage / ReadMessage
 	in3 := lib.L(lib.N(3), lib.Bool(hc), tv)
 	var wm []byte
@@ -1323,7 +1338,7 @@ func (h *H) exercise(v any, hc bool) {
 					h.roundtrip("consumed:"+label, in2, fmt.Sprintf("reader position %d, written %d", pos, len(b)))
 				}
 			}
-			h.addSeed("dec:"+label, seed{4, hc, k, b}, 6)
+			h.addSeed("dec:"+label, seed{4, hc, k, b}, h.seedsPerKind)
 		}
 	}
 }
@@ -1388,6 +1403,7 @@ func (h *H) envelope(v any, hc, sys bool, s, r vivid.ActorRef) {
 type fakeConn struct {
 	written []byte
 	chunk   []byte
+	piece   int // maximal number of bytes per Read (0: no limit)
 }
 
 type fakeAddr struct{}
@@ -1395,11 +1411,16 @@ type fakeAddr struct{}
 func (fakeAddr) Network() string { return "fake" }
 func (fakeAddr) String() string  { return "fake" }
 
+// Read delivers the stream in arbitrary pieces (M5), then io.EOF
 func (c *fakeConn) Read(b []byte) (int, error) {
 	if len(c.chunk) == 0 {
 		return 0, io.EOF
 	}
-	n := copy(b, c.chunk)
+	n := len(c.chunk)
+	if c.piece > 0 && n > c.piece {
+		n = c.piece
+	}
+	n = copy(b, c.chunk[:n])
 	c.chunk = c.chunk[n:]
 	return n, nil
 }
@@ -1415,7 +1436,11 @@ func (h *H) handshakeWait(old string, chunk []byte, expect *string) {
 	in := lib.L(lib.N(9), lib.S(old), lib.B(chunk))
 	out := h.protect("Handshake.Wait", in, func() lib.T {
 		hs := &remoting.Handshake{AdvertiseAddr: old}
-		err := hs.Wait(&fakeConn{chunk: append([]byte{}, chunk...)})
+		conn := &fakeConn{chunk: append([]byte{}, chunk...), piece: h.r.Intn(6)}
+		err := hs.Wait(conn)
+		if err == nil && expect != nil && len(conn.chunk) != len(chunk)-4-len(*expect) {
+			h.o.Monitor("consumed:handshake", in, fmt.Sprintf("Wait left %d of %d bytes in the stream", len(conn.chunk), len(chunk)))
+		}
 		if err != nil {
 			if hs.AdvertiseAddr != old {
 				h.o.Monitor("clobber:handshake", in, fmt.Sprintf("Wait failed (%v) but AdvertiseAddr changed to %q", err, hs.AdvertiseAddr))
@@ -1445,12 +1470,12 @@ func (h *H) handshake(addr string) {
 	if sent == nil {
 		return
 	}
-	if len(addr) <= 4092 {
+	if len(addr) <= 4096 {
 		h.handshakeWait("previous", sent, &addr)
 	} else {
 		h.handshakeWait("previous", sent, nil)
 	}
-	// the first Read delivers only a prefix (TCP may split): compared with the model, no monitor
+	// the stream ends inside the handshake
 	if len(sent) > 1 {
 		h.handshakeWait("previous", sent[:1+h.r.Intn(len(sent)-1)], nil)
 	}
@@ -1472,6 +1497,10 @@ func main() {
 	h := &H{o: o, r: r, seeds: map[string][]seed{}, roundtripHits: map[string]int{}}
 	g := &G{r: r.Fork()}
 	thorough := f.Tier == "thorough"
+	h.seedsPerKind = 3
+	if thorough {
+		h.seedsPerKind = 12
+	}
 
 	// --- registries
 	names := messages.XVRegisteredNames()
@@ -1598,10 +1627,16 @@ func main() {
 			v = g.value(r.Intn(nKinds), -1, 2)
 		}
 		if i < 6 {
-			for a := 0; a < 4; a++ {
-				for b := 0; b < 4; b++ {
+			// absent / present / present-with-empty-strings sender x receiver, both system flags
+			for _, a := range []int{0, 1, 3} {
+				for _, b := range []int{0, 1, 3} {
 					h.envelope(v, hc, (a+b)%2 == 0, g.ref(a), g.ref(b))
+					h.envelope(v, hc, (a+b)%2 != 0, g.ref(a), g.ref(b))
 				}
+			}
+			if i < 2 { // typed-nil pointers in the interface fields
+				h.envelope(v, hc, true, g.ref(2), g.ref(1))
+				h.envelope(v, hc, false, g.ref(1), g.ref(2))
 			}
 		} else {
 			h.envelope(v, hc, r.Bool(), g.ref(-1), g.ref(-1))
@@ -1609,7 +1644,7 @@ func main() {
 		}
 	}
 	// --- handshake
-	for i, a := range []string{"", "localhost:8080", "a", strings.Repeat("h", 4092), strings.Repeat("h", 4093), strings.Repeat("h", 5000), "\x00\xff"} {
+	for i, a := range []string{"", "localhost:8080", "a", strings.Repeat("h", 4096), strings.Repeat("h", 4097), strings.Repeat("h", 5000), "\x00\xff"} {
 		_ = i
 		h.handshake(a)
 	}
